@@ -25,5 +25,7 @@ def run(prog, rep, tier):
     apply(rep, "K6", "no execution when there is no combination of argument values", r_cli.k6(prog), 1)
     apply(rep, "K5", "status flags accumulate over all inputs", r_cli.k5(prog), 2)
     apply(rep, "K7", "`-a X` passes X itself as one string value (parse_arg_literal interpreted with the libzwerg API modelled)", r_cli.k7(prog), 1)
+    apply(rep, "K9", "query scripts are read sequentially (no seek/tell on input streams: -f - may be a pipe)", r_cli.k9(prog), 1)
+    control(rep, "K9", lambda p_: r_cli.k9(p_, driver_only=False), ["K9:verif_control_seeks_script"])
     apply(rep, "K8", "exit status, stdout and the driver's diagnostics for ~1400 abstract command lines (main() interpreted end to end against the documented behaviour)", r_cli.k8(prog, tier), 3)
     maybe_mutants("C19", rep, tier)
